@@ -575,6 +575,12 @@ class CPreProcessor:
                 if not used_in_concat:
                     # Do macro expansion on the argument:
                     replacement = self.expand_token_sequence(replacement)
+                elif not replacement:
+                    # Empty argument next to '##': placemarker
+                    # (C99 6.10.3.3)
+                    replacement = [
+                        CToken("PLACEMARKER", "", "", False, token.loc)
+                    ]
                 replacement = self.copy_tokens(replacement, token.space)
                 new_line.extend(replacement)
             else:
@@ -615,6 +621,11 @@ class CPreProcessor:
 
     def concat(self, lhs, rhs):
         """Concatenate two tokens"""
+        if lhs.typ == "PLACEMARKER":
+            return rhs.copy(space=lhs.space, first=lhs.first)
+        elif rhs.typ == "PLACEMARKER":
+            return lhs
+
         total_text = lhs.val + rhs.val
 
         # Invoke the lexer again on glued text to produce tokens:
@@ -633,7 +644,8 @@ class CPreProcessor:
             while le.has_consumed("##"):
                 rhs = le.consume()
                 lhs = self.concat(lhs, rhs)
-            glue_line.append(lhs)
+            if lhs.typ != "PLACEMARKER":
+                glue_line.append(lhs)
         return glue_line
 
     def make_newline_token(self, line):
